@@ -382,7 +382,7 @@ fn run_case(ctx: &mut Ctx, idx: u64) {
 }
 
 pub fn run(ctx: &mut Ctx) {
-    let n_cases = ctx.pick(6000, 700000);
+    let n_cases = ctx.pick(15000, 700000);
     for idx in 0..n_cases {
         if !ctx.mine(idx) {
             continue;
